@@ -33,6 +33,10 @@ RULE = ("(i) molecules as for C05 (FG-rich fragments, 1-14 heavy atoms, all id s
         "(iv) edit-in-place sequences: one FGQuery object and one graph object: get(g), the caller edits g IN PLACE (symbol or bond-order change keeping "
         "the node and edge counts, atom / bond added or removed), get(g) again, also with a second object h of the same new contents asked in between: every "
         "answer must equal the model's answer for the contents at that moment, and the last one the answer of a fresh FGQuery. "
+        "(v) SMILES string inputs: get(text) with the same string 2-3 times on one object, interleaved with other strings (sometimes a reaction SMILES), "
+        "and once more on a fresh object; the model gets the graph built directly from RDKit for the string. (vi) hydrocarbons / molecules on which nothing "
+        "matches, several in a row. In ALL runs the consumer is adversarial: every returned list is copied and then edited in place (bogus entry appended, atom "
+        "lists extended) before the next call. "
         "(iii) colliding symbols: pairs of molecules built directly whose neighbour lists around a hetero "
         "centre differ (a two-letter element such as Sn, Si, Co, Cs, No, Os, Sc, Hf, In, Cn, Nb, Pb vs the two one-letter atoms) but read the same when "
         "concatenated, asked one after the other (both orders, and m1,m2,m1) on ONE FGQuery object: the last answer must equal the model's answer for that "
@@ -64,6 +68,12 @@ def generate(seed, tier, ncases=None):
     # one FGQuery object: get(g), edit g IN PLACE, get(g) again (also with an equal-content object h asked in between)
     for i in range(max(2, n // 4)):
         cases.append(gen_edit_case(lib.rng_for(seed, ID, 670000 + i)))
+    # SMILES STRING inputs: the same string two or three times on one object and once more on a fresh object, interleaved
+    for i in range(max(2, n // 6)):
+        cases.append(gen_strings_case(lib.rng_for(seed, ID, 680000 + i)))
+    # molecules without hetero atoms / without any matching group, several in a row (returned lists are edited by the caller)
+    for i in range(max(2, n // 9)):
+        cases.append(gen_nothing_case(lib.rng_for(seed, ID, 690000 + i)))
     # small hetero rings in several writings with chain-pattern configurations (see c05.gen_ring_cases): the answer must
     # not depend on the writing-induced adjacency order beyond what the model says
     for i in range(max(2, n // 9)):
@@ -98,6 +108,35 @@ def gen_collision_cases(rng):
         out.append({"graph": final, "history": list(hist), "specs": None if specs is None else [dict(x) for x in specs],
                     "req_h": req_h, "scheme": "direct", "hmode": "none", "kind": "colliding-symbols"})
     return out
+
+
+def gen_strings_case(rng):
+    """get(text) with SMILES strings: a string whose group lists a hydrogen, asked 2-3 times on ONE FGQuery interleaved with
+    other strings (sometimes a reaction SMILES), and once more on a fresh object; the model's input for a string is the graph
+    built directly from RDKit for that string (fc.smiles_input_graph)"""
+    s1 = rng.choice(fc.SMILES_H)
+    others = rng.sample(fc.SMILES_OTHER + fc.SMILES_H, 2) + ([rng.choice(fc.SMILES_RXN)] if rng.random() < 0.25 else [])
+    texts = [s1]
+    for _ in range(rng.choice([1, 2])):
+        if rng.random() < 0.7:
+            texts.append(rng.choice(others))
+        texts.append(s1)
+    specs = None if rng.random() < 0.8 else [{"name": "hydroxy", "pattern": "OH"}, {"name": "oxy", "pattern": "RO", "group_atoms": [1]},
+                                             {"name": "CH", "pattern": "CO"}]
+    return {"kind": "smiles-strings", "texts": texts, "specs": specs, "req_h": rng.random() < 0.85, "graph": fc.smiles_input_graph(s1),
+            "scheme": "rdkit", "hmode": "none", "history": []}
+
+
+def gen_nothing_case(rng):
+    """hydrocarbons (no hetero atom at all) and molecules on which no configured group matches, asked one after the other on
+    the same object; together with the adversarial consumer (fc.record) a shared result object would be poisoned"""
+    from fgutils.parse import parse
+    mols = [parse(t) for t in rng.sample(fc.HYDROCARBONS, 3)]
+    if rng.random() < 0.4:
+        mols[rng.randrange(3)] = parse(rng.choice(["CCl", "CF", "CBr", "ClCCl"]))      # hetero atoms, but no default group
+    specs = None if rng.random() < 0.7 else [{"name": "oxy", "pattern": "RO"}, {"name": "aza", "pattern": "RN"}]
+    return {"kind": "nothing-matches", "graph": mols[-1], "history": mols[:-1], "specs": specs, "req_h": rng.random() < 0.6,
+            "scheme": "contig", "hmode": "none"}
 
 
 def gen_edit_case(rng):
@@ -144,6 +183,8 @@ def gen_steps_case(rng):
 
 
 def job_of(c):
+    if "texts" in c:
+        return {"kind": "strings", "specs": c["specs"], "req_h": c["req_h"], "texts": c["texts"]}
     if "events" in c:
         return {"kind": "editseq", "specs": c["specs"], "req_h": c["req_h"], "graph": ct.graph_py(c["graph"]), "events": c["events"]}
     if "steps" in c:
@@ -193,6 +234,9 @@ def _corpus():
 
 
 def run_impl(c):
+    if "texts" in c:
+        c["_mutated"] = False
+        return ("strings", fc.run_strings(c["specs"], c["req_h"], c["texts"]))
     if "events" in c:
         outs = fc.run_editseq(c["specs"], c["req_h"], c["graph"], c["events"])
         c["_mutated"] = any(o[0] == "MUTATED" for o in outs)
@@ -212,13 +256,12 @@ def run_impl(c):
         return fc._exc(e)
     for h, h0 in zip(hist, c["history"]):
         try:
-            q.get(h)
+            fc.record(q.get(h))          # the caller edits every returned list in place
         except (AssertionError, KeyError, IndexError, ValueError, TypeError):
             pass
         mutated = mutated or not gens.graphs_identical(h, h0)
     try:
-        r = q.get(g)
-        out = ("ok", [(n, [int(i) for i in ids]) for n, ids in r])
+        out = fc.record(q.get(g))
     except (AssertionError, KeyError, IndexError, ValueError, TypeError) as e:
         out = fc._exc(e)
     c["_mutated"] = mutated or not gens.graphs_identical(g, c["graph"])
@@ -229,6 +272,23 @@ def py_invariants(c, out):
     msgs = []
     if c.get("_mutated"):
         msgs.append("FGQuery.get modified the graph it was given")
+    if "texts" in c:
+        mine = [fc.norm_answer(x) for x in out[1]]
+        # model-independent: the same string always gets the same answer, on this object and on the fresh one
+        first = {}
+        for t, a in zip(c["texts"] + [c["texts"][-1]], mine):
+            if t in first and first[t] != a:
+                msgs.append("get(%r) answered %r earlier and %r later in the same interpreter" % (t, first[t], a))
+                break
+            first.setdefault(t, a)
+        ans = c.get("_seed_answers")
+        if ans is None:
+            ans = {s: fc.run_worker([job_of(c)], s)[0] for s in fc.SEEDS[:3]}
+        for s, r in ans.items():
+            if r["answers"] != mine and not msgs:
+                msgs.append("under PYTHONHASHSEED=%s the answers for the strings %r are %r, under PYTHONHASHSEED=0 they are %r"
+                            % (s, c["texts"], r["answers"], mine))
+        return msgs[:2]
     if "events" in c:
         mine = [fc.norm_answer(x) for x in out[1]]
         snaps = [g for g, _ in fc.play(c["events"], c["graph"])]
@@ -289,6 +349,23 @@ def py_invariants(c, out):
 
 
 def coq_case(c, out):
+    if "texts" in c:
+        defs, parts, diag = {}, [], []
+        rq = ct.b(c["req_h"])
+        if c["specs"] is not None:
+            defs["cfgs"] = fc.cfgs_term(c["specs"])
+        uniq = {}
+        for t in c["texts"]:
+            if t not in uniq:
+                uniq[t] = len(uniq)
+                defs["g%d" % uniq[t]] = ct.graph(fc.smiles_input_graph(t))
+        for k, (t, o) in enumerate(zip(c["texts"] + [c["texts"][-1]], out[1])):
+            defs["out%d" % k] = fc.answer_term(o)
+            gi = uniq[t]
+            m = ("default_query_fast %s $g%d" % (rq, gi)) if c["specs"] is None else ("query default_mapper $cfgs %s $g%d" % (rq, gi))
+            parts.append("answer_agreeb (%s) $out%d" % (m, k))
+            diag.append(m)
+        return {"defs": defs, "checks": {"agree": " && ".join(parts), "history": "true"}, "diag": diag[:3]}
     if "events" in c:
         snaps = [g for g, _ in fc.play(c["events"], c["graph"])]
         defs, parts, diag = {}, [], []
@@ -330,6 +407,8 @@ def coq_case(c, out):
 
 
 def describe(c):
+    if "texts" in c:
+        return {"kind": c["kind"], "texts": c["texts"], "specs": c["specs"], "req_h": c["req_h"]}
     if "events" in c:
         d = c05.describe(c)
         d["events"] = c["events"]
@@ -343,6 +422,9 @@ def describe(c):
 
 
 def from_json(d):
+    if "texts" in d:
+        return {"kind": d.get("kind", "smiles-strings"), "texts": d["texts"], "specs": d["specs"], "req_h": d["req_h"],
+                "graph": fc.smiles_input_graph(d["texts"][0]), "scheme": "rdkit", "hmode": "none", "history": []}
     if "events" in d:
         c = c05.from_json(d)
         c["events"] = d["events"]
@@ -360,6 +442,8 @@ def from_json(d):
 
 
 def describe_out(out):
+    if out[0] == "strings":
+        return {"status": "strings", "answers": [c05.describe_out(o) for o in out[1]]}
     if out[0] == "seq":
         return {"status": "seq", "answers": [c05.describe_out(o) for o in out[1]]}
     if out[0] == "steps":
@@ -368,6 +452,8 @@ def describe_out(out):
 
 
 def key(c):
+    if "texts" in c:
+        return ("strings", tuple(c["texts"]), c["req_h"], None if c["specs"] is None else tuple(fc.spec_key(x) for x in c["specs"]))
     if "events" in c:
         return c05.key(c) + (json_dumps(c["events"]),)
     if "steps" in c:
@@ -382,6 +468,8 @@ def json_dumps(x):
 
 
 def nontrivial(c, out):
+    if out[0] == "strings":
+        return any(o[0] == "ok" and len(o[1]) > 0 for o in out[1])
     if out[0] == "seq":
         return any(o[0] == "ok" and len(o[1]) > 0 for o in out[1])
     if out[0] == "steps":
@@ -390,6 +478,13 @@ def nontrivial(c, out):
 
 
 def classes(c, out):
+    if out[0] == "strings":
+        yield "kind=smiles-strings"
+        yield "calls=%d" % len(out[1])
+        yield "reaction=" + ("yes" if any(">>" in t for t in c["texts"]) else "no")
+        for o in out[1]:
+            yield "result=" + o[0]
+        return
     if out[0] == "seq":
         yield "kind=edit-in-place"
         yield "gets=%d" % len(out[1])
